@@ -40,6 +40,8 @@ class C19(Prop):
     # translator tie (DESIGN II.7): src/scheduler.rs itself — TaskHandle's two Subscription impls and the poll functions of
     # Remote / OnceTask / FutureTask / RepeatTask, regenerated from the compiler-expanded source on every run
     tie_modules = {"RxModel.GenTie.Scheduler": [],
+                   # what is not translated of scheduler.rs (the async block of schedule(), the spawn macros, remote_handle): pinned
+                   "RxModel.GenTie.PinsSched": [],
                    # what the sources and operators hand to the scheduler (task kind, delay, period) and keep of it (the handle)
                    "RxModel.GenTie.TimeSources": [], "RxModel.GenTie.TimeSourcesModel": [], "RxModel.GenTie.TimeOpsModel": [],
                    "RxModel.GenTie.DelaySubscription": []}
@@ -83,6 +85,20 @@ class C19(Prop):
         # harness field `realtimer`, see C08): it still runs once per period with consecutive numbers until it declines
         # (seed C19-9 consumed the ready timer in a registration poll and polled it again afterwards)
         out += C08.realtimer_cases(self)
+        # a REPEATING task handed to schedule() WITH a start delay (source `dinterval d p`: public API of the scheduler that no
+        # operator of the crate uses): consecutive ticks, and they keep coming (seed C19-11: the delay timer, kept and polled
+        # before the task on every poll, answered Pending for ever once it had fired).  Oracle only.
+        for fl in ("local", "threads"):
+            for d in (0, 1, 2, 5):
+                for p in (1, 2, 3):
+                    for n in (None, 3):
+                        src = ["dinterval", str(d), str(p)]
+                        pipe = ["take", str(n), src] if n else src
+                        evs = [["sub"], ["run"]]
+                        for _ in range(d + 5 * p + 3):
+                            evs += [["adv", "1"], ["run"]]
+                        evs += [["unsub"], ["adv", str(3 * p)], ["run"]]
+                        out.append(Case("time", fl, [("pipe", [pipe])], evs, {"kind": "delayed-repeat", "n": n or 0}))
         # is_closed() asked from ANOTHER OS thread while a task of the subscription is delivering (event `rq <event>`): the
         # query either waits for the handle's cell or sees the state before the poll — it must never answer `closed` for a
         # subscription that delivers afterwards (seed C19-8: try_lock, "busy" answered as closed)
@@ -104,8 +120,38 @@ class C19(Prop):
         out += cg.cases(tier, seed)
         return out
 
+    @staticmethod
+    def _dinterval(case):
+        f = case.field("pipe")
+        return bool(f) and "dinterval" in tg._heads_of(f[0], set())
+
+    def delayed_repeat_oracle(self, case, lines):
+        pipe = case.field("pipe")[0]
+        n = int(pipe[1]) if pipe[0] == "take" else 0
+        got, after_unsub, unsub = [], [], False
+        for k, e in enumerate(case.events):
+            b = lines.get(k) or ""
+            if b in ("PANIC", "HANG"):
+                return {"kind": b.lower(), "event": k, "detail": b}
+            if e[0] == "unsub":
+                unsub = True
+            if b.startswith("o="):
+                (after_unsub if unsub else got).extend(tg.parse_suffix(b)[0])
+        if after_unsub:
+            return {"kind": "ran-after-cancel", "event": len(case.events) - 1, "detail": f"after unsubscribe: {after_unsub}"}
+        items = [x for x in got if x.startswith("N")]
+        if items != [f"N{i}" for i in range(len(items))]:
+            return {"kind": "repeat-sequence", "event": len(case.events) - 1, "detail": f"ticks {items}: not 0, 1, 2, …"}
+        want = n if n else 3
+        if len(items) < want:
+            return {"kind": "repeat-stalled", "event": len(case.events) - 1,
+                    "detail": f"only {len(items)} tick(s) {items} after the start delay and five periods, every task run"}
+        if n and got[n:] != ["C"]:
+            return {"kind": "repeat-sequence", "event": len(case.events) - 1, "detail": f"take {n}: delivered {got}"}
+        return None
+
     def compare_from(self, case):
-        if case.field("realtimer"):
+        if case.field("realtimer") or self._dinterval(case):
             return len(case.events)
         if case.suite == "coop":
             from .. import coopgen as cg
@@ -124,6 +170,8 @@ class C19(Prop):
             return cg.oracle(case, lines)
         if case.field("realtimer"):
             return C08.realtimer_oracle(self, case, lines)
+        if self._dinterval(case):
+            return self.delayed_repeat_oracle(case, lines)
         pipe = case.field("pipe")[0]
         unsub = False
         rclosed = None
